@@ -65,10 +65,18 @@ def _message(spec):
 
 
 def run_case(case):
+    import time
+    t0 = time.time()
+    res = _run_case(case)
+    res['wall'] = round(time.time() - t0, 3)
+    return res
+
+
+def _run_case(case):
     res = _once(case, HANG)
     if res['monitors'] and all(m['rule'] in ('pipe-missing', 'pipe-error') for m in res['monitors']):
         first = [m['rule'] for m in res['monitors']]      # only a wait that ran into its bound: confirm once
-        res = _once(case, 3 * HANG)
+        res = _once(case, 2 * HANG)
         res['retried_after'] = first
     return res
 
